@@ -114,7 +114,7 @@ def nuts_worker(ctx, nc, nd):
         dim = index_term(T.app('dims', pos0), N(0))
         post = T.app('post0', T.app('nuts::NUTSChain::step', ls.lh[sk[0]]))
         r = T.sub(it, nd)
-        exp = T.ite(T.cmp('ge', it, nd), T.app('slice_assign', ls.lh[o], T.app('array', T.app('range', r, T.add(r, T.ONE)), T.app('range', N(0), dim)), T.app('unsqueeze', fld(post, 'position'))), ls.lh[o])
+        exp = T.ite(T.icmp('ge', it, nd), T.app('slice_assign', ls.lh[o], T.app('array', T.app('range', r, T.add(r, T.ONE)), T.app('range', N(0), dim)), T.app('unsqueeze', fld(post, 'position'))), ls.lh[o])
         ctx.eq('C10.sib.nuts.guard_row_value', A, 'store', ls.next[o], exp, sp=ls.sp, why='store iff i >= n_discard at row i - n_discard the position after this iteration\'s step')
     send_rules(ctx, 'C10.nuts', A, ev, ls, sp)
     # tracker is fed the position after the step (reads only)
@@ -298,7 +298,7 @@ def reporters(ctx, nc, nd):
                 nx = rl.next[k]
                 for lim in ([nch] if nch is not None else []):
                     for cnt in (nx, rl.lh[k]):
-                        if cond is T.cmp('ge', cnt, lim) or cond is T.cmp('ge', cnt, T.app('len', T.app('repeat', S('None'), lim))):
+                        if cond is T.icmp('ge', cnt, lim) or cond is T.icmp('ge', cnt, T.app('len', T.app('repeat', S('None'), lim))):
                             okexit, fkey = True, k
                 # len(most_recent) where most_recent = vec![None; n_channels]
                 for k2 in rl.lh:
@@ -308,7 +308,7 @@ def reporters(ctx, nc, nd):
                             if mr is None:
                                 continue
                             for cnt in (nx, rl.lh[k]):
-                                if cond is T.cmp('ge', cnt, T.app('len', mr)):
+                                if cond is T.icmp('ge', cnt, T.app('len', mr)):
                                     okexit, fkey = True, k
         ctx.check('C10.exit.' + tag, A, 'exit-test', okexit and len(exits) == 1, expected='single exit: break when n_finished >= number of channels (= number of chains)',
                   found='; '.join(show(e[2]) for e in exits), sp=rl.sp, why='necessary for termination: the reporter must stop once every chain has reported completion, also with more chains than bars')
